@@ -524,6 +524,14 @@ func (p *Program) printEventsDepth(str *types.Func, depth int) []slotEvent {
 									if j < len(f) {
 										verb = f[j]
 									}
+									if id, ok := ast.Unparen(args[ai]).(*ast.Ident); ok {
+										if evs, ok := pending[p.Info.ObjectOf(id)]; ok {
+											ev = append(ev, evs...)
+											ai++
+											i = j
+											continue
+										}
+									}
 									p.emitArg(args[ai], verb, fieldOf, &ev)
 									ai++
 								}
@@ -668,6 +676,19 @@ func (p *Program) printEventsDepth(str *types.Func, depth int) []slotEvent {
 				}
 			}
 		case *ast.TypeSwitchStmt:
+			// switch key := recv.F.(type): key names the field in every clause
+			if as, ok := x.Assign.(*ast.AssignStmt); ok && len(as.Rhs) == 1 {
+				if ta, ok := ast.Unparen(as.Rhs[0]).(*ast.TypeAssertExpr); ok {
+					if f := fieldOf(ta.X); f != "" {
+						ev = append(ev, slotEvent{kind: "READ", field: f, pos: ta.X.Pos(), cond: true})
+						for _, cl := range x.Body.List {
+							if o := p.Info.Implicits[cl]; o != nil {
+								alias[o] = f
+							}
+						}
+					}
+				}
+			}
 			for _, cl := range x.Body.List {
 				for _, s := range cl.(*ast.CaseClause).Body {
 					walk(s)
